@@ -243,12 +243,12 @@ Proof.
   rewrite U1, U2, U3.
   set (diff := 1000000000 * need).
   set (d := diff / bw + (if 0 <? diff mod bw then 1 else 0)).
-  assert (Hd : diff <= bw * d /\ 0 <= d <= diff).
+  assert (Hd : diff <= bw * d <= diff + bw /\ 0 <= d <= diff).
   { unfold d. pose proof (Z.div_mod diff bw ltac:(lia)). pose proof (Z.mod_pos_bound diff bw ltac:(lia)).
     assert (0 <= diff / bw) by (apply Z.div_pos; unfold diff; lia).
     assert (diff / bw <= diff) by (apply Z.div_le_upper_bound; unfold diff; nia).
-    destruct (0 <? diff mod bw) eqn:E2; split; nia. }
-  destruct Hd as (Hd1 & Hd2 & Hd3).
+    destruct (0 <? diff mod bw) eqn:E2; repeat split; nia. }
+  destruct Hd as ((Hd1 & Hd1') & Hd2 & Hd3).
   assert (Wd : wrap64 d = d) by (apply wrap64_id; unfold two63, diff in *; lia).
   rewrite Wd.
   set (delay := Z.max 1000000 d).
@@ -257,7 +257,8 @@ Proof.
   rewrite Wt. unfold pacer_budget. consts. replace (p_last p =? 0) with false by lia.
   replace (p_last p + delay - p_last p) with delay by lia.
   assert (W1 : wrap64 delay = delay) by (apply wrap64_id; unfold two63; lia). rewrite W1.
-  assert (Hprod : 0 <= bw * delay < 1000000000000 * (1000000000 * 1452 + 1)) by nia.
+  assert (Hprod : 0 <= bw * delay < 2000000000000000000).
+  { unfold delay, diff in *. destruct (Z.max_spec 1000000 d) as [(_ & ->)|(_ & ->)]; nia. }
   assert (W2 : wrap64 (bw * delay) = bw * delay) by (apply wrap64_id; unfold two63; lia). rewrite W2.
   assert (Hq : need <= Z.quot (bw * delay) 1000000000).
   { rewrite Z.quot_div_nonneg by lia. apply Z.div_le_lower_bound; [lia|]. unfold diff in *. nia. }
@@ -297,7 +298,7 @@ Fixpoint last_sent_of (l0 : Z) (es : list qevent) : Z :=
   end.
 
 Lemma gets_ok : forall q l, pq_wf Z 0 q ->
-  fold_left (fun r p => _ <- r ;; _ <- pq_get 0 q (fst p) ;; Ok tt) l (Ok tt) = Ok tt.
+  fold_left (fun (r : Res unit) (p : Z * Z) => _ <- r ;; _ <- pq_get 0 q (fst p) ;; Ok tt) l (Ok tt) = Ok tt.
 Proof.
   intros q l W. induction l as [|p t IH] using rev_ind; [reflexivity|].
   rewrite fold_left_app. cbn [fold_left]. rewrite IH. cbn [bind].
@@ -322,19 +323,15 @@ Proof.
       { pose proof (last_is_spec_last Z 0 q W) as HLs. pose proof (wf_empty_iff Z 0 q W) as HE.
         unfold spec_emplace. destruct (snd (pq_abs Z 0 q)) eqn:ES; [reflexivity|].
         assert (EM : pq_is_empty q = false).
-        { destruct (pq_is_empty q) eqn:EM; auto. apply HE in EM. congruence. }
+        { destruct (pq_is_empty q) eqn:EM; auto. apply (wf_empty_iff Z 0 q W) in EM. congruence. }
         specialize (HL EM). rewrite HLs in HL. unfold spec_last, spec_slots in HL. rewrite ES in HL.
         destruct (pn <=? _) eqn:LE; [|reflexivity]. lia. }
       rewrite Hb in E. rewrite E. cbn [bind fst]. exists q'. split; [reflexivity|].
       destruct (emplace_last Z 0 q pn bytes q' W Hpn E) as (_ & L' & _).
       split; [split; [exact W'|split; [intros; lia|consts; lia]]|].
-      destruct (C12_Layer1.slots_span Z 0 q' W') as [(EM & _)|(EM & _)].
-      * exfalso. apply (wf_empty_iff Z 0 q' W') in EM. rewrite A in EM. unfold spec_emplace in EM.
-        destruct (snd (pq_abs Z 0 q)); [discriminate|]. destruct (pn <=? _); [discriminate|].
-        cbn [fst snd] in EM. destruct l; discriminate.
-      * rewrite (get_refines Z 0 q' pn W'), A.
-        pose proof W as ((_ & _ & Hf) & _).
-        rewrite (spec_emplace_get Z (pq_abs Z 0 q) pn bytes pn Hpn Hpn Hf), Hb, Z.eqb_refl. discriminate.
+      rewrite (get_refines Z 0 q' pn W'), A.
+      pose proof W as ((_ & _ & Hf) & _).
+      rewrite (spec_emplace_get Z (pq_abs Z 0 q) pn bytes pn Hpn Hpn Hf), Hb, Z.eqb_refl. discriminate.
     + exists q. split; [reflexivity|]. split; [|exact I]. split; [exact W|]. split; [intros EM; specialize (HL EM); lia|consts; lia].
   - rewrite (gets_ok q (lost ++ acked) W). cbn [bind].
     destruct (remove_upto_refines Z 0 q (least_unacked acked lost) W) as (q' & E & W' & A).
@@ -344,15 +341,19 @@ Proof.
     + intros EM. destruct (Hspan EM) as (L1 & _).
       assert (EM0 : pq_is_empty q = false).
       { destruct (pq_is_empty q) eqn:EM0; auto. exfalso.
-        apply (wf_empty_iff Z 0 q W) in EM0. apply (wf_empty_iff Z 0 q' W') in EM; auto.
-        rewrite A. unfold spec_upto. rewrite EM0. reflexivity. }
+        apply (wf_empty_iff Z 0 q W) in EM0.
+        assert (X : pq_is_empty q' = true).
+        { apply (wf_empty_iff Z 0 q' W'). rewrite A. unfold spec_upto. rewrite EM0. reflexivity. }
+        congruence. }
       specialize (HL EM0). lia.
     + destruct (C12_Layer1.slots_span Z 0 q' W') as [(_ & S0 & _)|(EM & _ & _ & _)]; [lia|].
       destruct (Hspan EM) as (L1 & F1 & _ & S1 & _).
       assert (EM0 : pq_is_empty q = false).
       { destruct (pq_is_empty q) eqn:EM0; auto. exfalso.
-        apply (wf_empty_iff Z 0 q W) in EM0. apply (wf_empty_iff Z 0 q' W') in EM; auto.
-        rewrite A. unfold spec_upto. rewrite EM0. reflexivity. }
+        apply (wf_empty_iff Z 0 q W) in EM0.
+        assert (X : pq_is_empty q' = true).
+        { apply (wf_empty_iff Z 0 q' W'). rewrite A. unfold spec_upto. rewrite EM0. reflexivity. }
+        congruence. }
       specialize (HL EM0). lia.
   - exists q. split; [reflexivity|]. split; [|exact I]. split; [exact W|]. split; auto.
 Qed.
@@ -391,7 +392,7 @@ Lemma quic_consistent_increasing : forall es l0 out m,
 Proof.
   induction es as [|e t IH]; intros l0 out m H; cbn [quic_consistent_from sent_increasing_from] in *; auto.
   destruct e as [pn b r|a l|s].
-  - repeat (apply andb_prop in H; destruct H as (H & ?)). rewrite H, H1. cbn [andb]. eapply IH; eauto.
-  - repeat (apply andb_prop in H; destruct H as (H & ?)). eapply IH; eauto.
-  - repeat (apply andb_prop in H; destruct H as (H & ?)). eapply IH; eauto.
+  - rewrite !andb_true_iff in H. destruct H as (((A & B) & C) & D). rewrite A, B. cbn [andb]. eapply IH; eauto.
+  - rewrite !andb_true_iff in H. destruct H as (_ & D). eapply IH; eauto.
+  - rewrite !andb_true_iff in H. destruct H as (_ & D). eapply IH; eauto.
 Qed.
